@@ -15,7 +15,7 @@
    scheduler never invents a model step and never skips one (GroupR_proofs.replay_reach).
    A wrong order can only make the replay fail, never succeed wrongly. *)
 From Coq Require Import ZArith Bool List.
-From Verif Require Import Word Conc Gen_consts Gen_group Group.
+From Verif Require Import Word Conc Gen_consts Gen_group Group GroupR_inv.
 Import ListNotations.
 Local Open Scope Z_scope.
 
@@ -75,7 +75,9 @@ Section Sched.
         | [] => (s, qs, done, bad, [])
         | _ => match pick s qs ord [] w with
                | Some (t, s') =>
-                   let bad' := if (bad =? -1) && ((done + 1) mod period =? 0) && negb (chk s') then done + 1 else bad in
+                   (* nested ifs: vm_compute evaluates the arguments of && eagerly, chk must only run on the chosen states *)
+                   let bad' := if bad =? -1 then (if (done + 1) mod period =? 0 then (if chk s' then bad else done + 1) else bad)
+                               else bad in
                    sched f w s' (pop_q t qs) (remove_first t ord) (done + 1) bad'
                | None => (s, qs, done, bad, ord)
                end
@@ -87,7 +89,7 @@ Definition all_idle (s : gst) (tids : list Z) : bool :=
   forallb (fun t => match pcs s t with PIdle => true | _ => false end) tids.
 Definition none_asleep (s : gst) (tids : list Z) : bool :=
   forallb (fun t => match slp s t with Sleeping => false | _ => true end) tids.
-Fixpoint zrange (n : nat) : list Z := match n with O => [] | S k => zrange k ++ [Z.of_nat k] end.
+
 Definition all_fired (s : gst) : bool := forallb (fun i => fcnt s i =? 1) (zrange (Z.to_nat (nreg s))).
 
 (* result of the replay of one round:
